@@ -64,6 +64,16 @@ func init() {
 				seen[k] = true
 				res.Distinct++
 			}
+			if x.w.hung {
+				step := ""
+				for _, o := range x.w.obs {
+					if o.Kind == "hang" {
+						step = strings.Fields(o.A["s"])[0]
+					}
+				}
+				res.addFinding("C16/"+x.sc.role+"/handler-never-returns/"+step, "a step of the scenario ("+step+") did not return within the watchdog: a handler or the recovery is blocked, the swap cannot move any more", map[string]interface{}{"scenario": k})
+				return
+			}
 			if x.ctx.id == "" {
 				res.Histogram["no swap created"]++
 				return
